@@ -21,6 +21,7 @@ import (
 	"verif/engine/vnode"
 	vs "verif/engine/vsched"
 	"verif/engine/vsched/vatomic"
+	context "verif/engine/vsched/vcontext"
 )
 
 // ---------------------------------------------------------------- enumerated space
@@ -56,11 +57,22 @@ func (c conf) String() string {
 
 // one case = one alternative of the second free choice point
 type pcase struct {
-	script []int // rows per page
-	start  int   // manual paging: index of the page whose state the caller supplies (0: no state)
+	script   []int // rows per page
+	start    int   // manual paging: index of the page whose state the caller supplies (0: no state)
+	spec     bool  // idempotent query with SimpleSpeculativeExecution{NumAttempts: 1, TimeoutDelay: 50ms}
+	cancelAt int   // > 0: Query.WithContext(ctx); the caller cancels ctx itself after having seen this many rows
 }
 
-func (p pcase) String() string { return fmt.Sprintf("pages=%v start=%d", p.script, p.start) }
+func (p pcase) String() string {
+	s := fmt.Sprintf("pages=%v start=%d", p.script, p.start)
+	if p.spec {
+		s += " speculative"
+	}
+	if p.cancelAt > 0 {
+		s += fmt.Sprintf(" caller-cancels-after-row-%d", p.cancelAt)
+	}
+	return s
+}
 
 func product(prefetch []float64, pageSize []int, prep []int, consumer []int) []conf {
 	var out []conf
@@ -167,7 +179,8 @@ type dataReq struct {
 	page     int    // page served (-1: the state is none the node ever handed out)
 	fate     string // ok / error / never / drop
 	at       time.Duration
-	by       string // "c": requested by the consumer thread, "a": by the asynchronous prefetch goroutine
+	by       string // "c": requested by the consumer thread, "a": by the asynchronous prefetch goroutine, "s": executor goroutine
+	node     string
 }
 
 func (d dataReq) String() string {
@@ -175,7 +188,7 @@ func (d dataReq) String() string {
 	if d.hasState {
 		st = fmt.Sprintf("%q", d.state)
 	}
-	return fmt.Sprintf("%s %s state=%s by=%s -> page %d %s", d.kind, d.stmt, st, d.by, d.page+1, d.fate)
+	return fmt.Sprintf("%s@%s %s state=%s by=%s -> page %d %s", d.kind, d.node, d.stmt, st, d.by, d.page+1, d.fate)
 }
 
 type world struct {
@@ -184,6 +197,7 @@ type world struct {
 	reqs     []dataReq
 	prepares int
 	faulted  bool
+	maxReqs  int
 }
 
 func renderOptions(p *frame.QueryParams) string {
@@ -241,7 +255,10 @@ func (w *world) handler() vnode.Handler {
 		d.by = "c"
 		if _, tn := vs.CurrentThread(); strings.Contains(tn, "fetchAsync") {
 			d.by = "a"
+		} else if strings.Contains(tn, "queryExecutor") {
+			d.by = "s" // speculative execution: every attempt runs on an executor goroutine
 		}
+		d.node = n.Name
 		d.page = -1
 		if !d.hasState {
 			d.page = 0
@@ -257,7 +274,7 @@ func (w *world) handler() vnode.Handler {
 			w.reqs = append(w.reqs, d)
 			return vnode.Reply{Msg: &frame.Error{Code: 0x2200, Message: "invalid paging state"}}
 		}
-		if len(w.reqs) >= len(w.script)+3 {
+		if len(w.reqs) >= w.maxReqs {
 			// a driver that keeps asking (e.g. ignores has_more_pages) must not run into the step limit: refuse.
 			// The request log already violates the oracle at this point.
 			d.fate = "refused"
@@ -310,6 +327,7 @@ type c15scn struct {
 	combos []combo  // ... or an explicit list: one free choice point
 	faults []string // alternatives of the per-page-request choice (index 0 = "ok"; others cost F)
 	manual bool
+	hosts  int // 0/1: one node; 2: two nodes serving the same script (speculative attempts go to the next host)
 	quick  vs.Bounds
 	thor   vs.Bounds
 }
@@ -331,7 +349,7 @@ func mapRow(m map[string]interface{}) (row, bool) {
 	return row{k: int32(k), v: v, b: b}, ok1 && ok2 && ok3 && len(m) == 3
 }
 
-func consume(it *gocql.Iter, consumer int) (r result) {
+func consume(it *gocql.Iter, consumer int, onRow func(n int)) (r result) {
 	r.stateAt0 = append([]byte(nil), it.PageState()...)
 	switch consumer {
 	case consScan:
@@ -343,6 +361,7 @@ func consume(it *gocql.Iter, consumer int) (r result) {
 				break
 			}
 			r.rows = append(r.rows, row{k, v, b})
+			onRow(len(r.rows))
 		}
 	case consScanner:
 		sc := it.Scanner()
@@ -356,6 +375,7 @@ func consume(it *gocql.Iter, consumer int) (r result) {
 				continue
 			}
 			r.rows = append(r.rows, row{k, v, b})
+			onRow(len(r.rows))
 		}
 		r.err = sc.Err()
 		return r
@@ -371,6 +391,7 @@ func consume(it *gocql.Iter, consumer int) (r result) {
 				r.firstErr = fmt.Sprintf("MapScan produced %v", m)
 			}
 			r.rows = append(r.rows, rw)
+			onRow(len(r.rows))
 		}
 	case consSliceMap:
 		ms, err := it.SliceMap()
@@ -415,10 +436,19 @@ func (s *c15scn) body() {
 		pc = s.cases[vs.Choose(len(s.cases), vs.Free)]
 	}
 
-	w := &world{sc: s, script: pc.script}
+	w := &world{sc: s, script: pc.script, maxReqs: len(pc.script) + 3}
+	if pc.spec {
+		w.maxReqs = 2*len(pc.script) + 3
+	}
 	cl := newCluster(true)
-	cl.add("10.0.0.1", w.handler())
-	cfg := gocql.NewCluster("10.0.0.1")
+	ips := []string{"10.0.0.1"}
+	if s.hosts == 2 {
+		ips = append(ips, "10.0.0.2")
+	}
+	for _, ip := range ips {
+		cl.add(ip, w.handler()) // all nodes serve the same script and share one request log (arrival order)
+	}
+	cfg := gocql.NewCluster(ips...)
 	cfg.ProtoVersion = 4
 	cfg.Timeout = 100 * time.Millisecond
 	cfg.ConnectTimeout = 100 * time.Millisecond
@@ -452,10 +482,28 @@ func (s *c15scn) body() {
 		q = q.PageState(supplied)
 	}
 
+	const specAttempts = 1
+	if pc.spec {
+		q = q.Idempotent(true).SetSpeculativeExecutionPolicy(&gocql.SimpleSpeculativeExecution{NumAttempts: specAttempts, TimeoutDelay: 50 * time.Millisecond})
+	}
+	callerCancelled := false
+	onRow := func(int) {}
+	if pc.cancelAt > 0 {
+		ctx, cancel := context.WithCancel(context.Background())
+		defer cancel()
+		q = q.WithContext(ctx)
+		onRow = func(n int) {
+			if n == pc.cancelAt {
+				callerCancelled = true
+				cancel()
+			}
+		}
+	}
+
 	done := make(chan result, 1)
 	vs.GoNamed("consumer", func() {
 		it := q.Iter()
-		vs.Send(done, consume(it, cf.consumer))
+		vs.Send(done, consume(it, cf.consumer, onRow))
 	})
 	r := vs.Recv[result](done)
 	nReqAtReturn := len(w.reqs)
@@ -513,25 +561,41 @@ func (s *c15scn) body() {
 		}
 		break
 	}
+	// a page fetch FAILED when every request for that page failed (with speculative execution a second attempt on
+	// the other host may legitimately succeed where the first one failed)
+	pageFailed := false
+	for p := range pc.script {
+		asked, served := false, false
+		for _, d := range w.reqs {
+			if d.page == p {
+				asked = true
+				served = served || d.fate == "ok"
+			}
+		}
+		pageFailed = pageFailed || (asked && !served)
+	}
 	// ... and the whole of it when the iteration ended normally
 	if r.err == nil && len(r.rows) < len(want) {
-		if w.faulted {
+		if pageFailed {
 			vs.Failf("c15:failed-fetch-reported-as-normal-end", "the fetch of a page failed but the iteration ended without an error after %d of %d rows: %s", len(r.rows), len(want), desc())
 		} else {
 			vs.Failf("c15:early-normal-end", "iteration ended without an error after %d of %d rows: %s", len(r.rows), len(want), desc())
 		}
 	}
-	if w.faulted && r.err == nil && len(r.rows) >= len(want) {
+	if pageFailed && r.err == nil && len(r.rows) >= len(want) {
 		// the failed page was requested, so its rows (or the pages after it) cannot have been delivered; a page that
 		// was requested and failed must surface even if it would have been empty
 		vs.Failf("c15:failed-fetch-reported-as-normal-end", "the fetch of a page failed but Close()/Err() returned nil: %s", desc())
 	}
-	// an error needs a cause: a failed fetch, or a timer that fired while the reply was in flight (D deviation)
-	if r.err != nil && !w.faulted && dDev == 0 {
-		vs.Failf("c15:error-without-failed-fetch", "every page was served, no timer fired early, but the iteration reported %v (first seen by %s): %s", r.err, r.firstErr, desc())
+	// an error needs a cause: a failed fetch, a timer that fired while the reply was in flight (D deviation), or the
+	// CALLER cancelling the context it gave to the query. (The executor's own cancellation of the per-attempt context
+	// of a speculative execution is not a cause: it must not leak into the fetch of later pages.)
+	if r.err != nil && !w.faulted && dDev == 0 && !callerCancelled {
+		vs.Failf("c15:error-without-failed-fetch", "every page was served, no timer fired early, the caller did not cancel, but the iteration reported %v (first seen by %s): %s", r.err, r.firstErr, desc())
 	}
 
 	// the request log
+	cur := first - 1 // highest page asked for so far
 	for i, d := range w.reqs {
 		if d.page < 0 {
 			vs.Failf("c15:unknown-paging-state-sent", "request %d carries paging state %q, which no page carried: %s", i, d.state, desc())
@@ -540,26 +604,33 @@ func (s *c15scn) body() {
 		if d.options != w.reqs[0].options || d.stmt != w.reqs[0].stmt || d.kind != w.reqs[0].kind {
 			vs.Failf("c15:next-page-request-differs", "request %d is {%s %s %s}, the first was {%s %s %s}: %s", i, d.kind, d.stmt, d.options, w.reqs[0].kind, w.reqs[0].stmt, w.reqs[0].options, desc())
 		}
-		wantPage := first + i
-		if d.page == wantPage && wantPage <= last {
+		if d.page == cur+1 && d.page <= last {
+			cur = d.page
 			continue
 		}
-		dup := false
+		count := 0
 		for _, e := range w.reqs[:i] {
 			if e.page == d.page {
-				dup = true
+				count++
 			}
 		}
 		switch {
 		case s.manual:
 			vs.Failf("c15:manual-paging-more-than-one-request", "caller-supplied page state: request %d (page %d) was sent: %s", i, d.page+1, desc())
-		case dup:
+		case count > 0 && pc.spec && count < 1+specAttempts && (dDev > 0 || w.faulted):
+			// speculative execution: once the 50ms delay has elapsed (possible only after a D deviation or while an
+			// unanswered request keeps the client waiting) ONE more attempt of the same page goes to the next host
+		case count > 0:
 			vs.Failf("c15:page-requested-twice", "request %d asks for page %d again: %s", i, d.page+1, desc())
 		default:
-			vs.Failf("c15:wrong-paging-state", "request %d carries the state of page %d, expected page %d: %s", i, d.page+1, wantPage+1, desc())
+			vs.Failf("c15:wrong-paging-state", "request %d carries the state of page %d, expected page %d: %s", i, d.page+1, cur+2, desc())
 		}
 	}
-	if len(w.reqs) > last-first+1 {
+	maxReqs := last - first + 1
+	if pc.spec {
+		maxReqs *= 1 + specAttempts
+	}
+	if cur > last || len(w.reqs) > maxReqs {
 		vs.Failf("c15:request-after-last-page", "%d page requests for %d pages: %s", len(w.reqs), last-first+1, desc())
 	}
 	if len(w.reqs) > 0 {
@@ -584,7 +655,8 @@ func (s *c15scn) body() {
 	}
 	// (fewer requests than pages with a normal end and all rows seen would only be possible with trailing empty
 	// pages; no row is lost then, so the property does not forbid it: not checked)
-	if len(w.reqs) != nReqAtReturn {
+	if len(w.reqs) != nReqAtReturn && !(pc.spec && (dDev > 0 || w.faulted)) {
+		// (a speculative attempt already on its way when the first result arrived may still reach its node)
 		vs.Failf("c15:request-after-iteration-ended", "%d request(s) reached the node after the consumer had finished: %s", len(w.reqs)-nReqAtReturn, desc())
 	}
 	if s.manual {
@@ -716,8 +788,9 @@ func scenarios(thorough bool) []*c15scn {
 	} else {
 		add(&c15scn{name: "wide-product+", confs: product(allPrefetch, pageSizes, allPrep, allCons), cases: autoCases(scripts(1, 4, rowsAlpha)), quick: onlyFaults, thor: onlyFaults})
 		// one deviation of any kind (schedule, timer, failure): all configurations x scripts of <= 2 pages; 3 pages unprepared
-		add(&c15scn{name: "wide-1dev-2pages+", confs: product(allPrefetch, pageSizes, allPrep, allCons), cases: autoCases(scripts(1, 2, rowsAlpha)), quick: b(1), thor: b(1)})
-		add(&c15scn{name: "wide-1dev-3pages+", confs: product(allPrefetch, []int{3}, []int{prepNo}, allCons), cases: autoCases(scripts(3, 3, rowsAlpha)), quick: b(1), thor: b(1)})
+		// (the thorough budget of mcreport.Main is shared EQUALLY by the scenarios, so the thorough tier uses few, similar-sized scenarios)
+		add(&c15scn{name: "wide-1dev+", combos: append(cross(product(allPrefetch, pageSizes, allPrep, allCons), autoCases(scripts(1, 2, rowsAlpha))),
+			cross(product(allPrefetch, []int{3}, []int{prepNo}, allCons), autoCases(scripts(3, 3, rowsAlpha)))...), quick: b(1), thor: b(1)})
 	}
 	add(&c15scn{name: "wide-manual", confs: product([]float64{0, 1}, []int{3}, allPrep, allCons), cases: manualAll, manual: true, quick: onlyFaults, thor: b(1)})
 
@@ -738,7 +811,16 @@ func scenarios(thorough bool) []*c15scn {
 	deep = append(deep, combo{conf{0.25, 3, prepSkip, consMapScan}, sc(0, 2, 1)})
 	// (d) empty pages: first, middle, last, all; single page
 	deep = append(deep, cross([]conf{scan(1), scan(0)}, []pcase{sc(0), sc(3), sc(0, 0), sc(1, 0), sc(0, 1, 0)})...)
-	add(&c15scn{name: "deep-auto-paging", combos: byWeight(deep), quick: b(2), thor: b(2)})
+	if !thorough {
+		add(&c15scn{name: "deep-auto-paging", combos: byWeight(deep), quick: b(2), thor: b(2)})
+	} else {
+		// the same 33 pairs + every 2-page script x every threshold for Scan and SliceMap + 4-page scripts, all at T=2
+		t2 := append([]combo(nil), deep...)
+		t2 = append(t2, cross(product(allPrefetch, []int{3}, []int{prepNo}, []int{consScan, consSliceMap}), autoCases(scripts(2, 2, rowsAlpha)))...)
+		t2 = append(t2, cross([]conf{scan(0.5), {0.25, 3, prepSkip, consMapScan}, {1, 100, prepNo, consSliceMap}, {0, 3, prepNoSkip, consScanner}},
+			[]pcase{sc(2, 0, 3, 0), sc(1, 1, 1, 1), sc(3, 3, 0, 2), sc(0, 0, 0, 1)})...)
+		add(&c15scn{name: "deep-t2+", combos: byWeight(t2), quick: b(2), thor: b(2)})
+	}
 	if thorough {
 		// T=3 on the smaller members of each group (a 3-page script costs ~250k executions at T=3, a 2-page one ~80k)
 		var d3 []combo
@@ -748,16 +830,51 @@ func scenarios(thorough bool) []*c15scn {
 		d3 = append(d3, combo{conf{0.5, 100, prepSkip, consScan}, sc(2, 1)}, combo{conf{0.5, 3, prepNoSkip, consScan}, sc(1, 0)}, combo{conf{1, 3, prepSkip, consScanner}, sc(1, 0)})
 		d3 = append(d3, cross([]conf{scan(1)}, []pcase{sc(0), sc(3), sc(0, 0), sc(1, 0)})...)
 		d3 = append(d3, combo{scan(0), sc(0, 0)})
-		add(&c15scn{name: "deep-t3+", combos: d3, quick: b(3), thor: b(3)})
+		d3 = byWeight(d3)
+		var d3a, d3b []combo
+		for i, c := range d3 {
+			if i%2 == 0 {
+				d3a = append(d3a, c)
+			} else {
+				d3b = append(d3b, c)
+			}
+		}
+		add(&c15scn{name: "deep-t3a+", combos: d3a, quick: b(3), thor: b(3)})
+		add(&c15scn{name: "deep-t3b+", combos: d3b, quick: b(3), thor: b(3)})
 	}
 	// caller-supplied page state
 	add(&c15scn{name: "manual-paging", manual: true, combos: cross([]conf{{0.5, 3, prepNo, consScan}, {0.5, 3, prepSkip, consScanner}, {1, 100, prepNoSkip, consSliceMap}, {0, 3, prepNo, consMapScan}},
 		[]pcase{{script: []int{2, 1}, start: 0}, {script: []int{1, 2}, start: 1}, {script: []int{1, 0, 1}, start: 1}}), quick: b(2), thor: b(3)})
+	// 3. speculative execution (idempotent query, SimpleSpeculativeExecution{1, 50ms}, two nodes serving the same
+	// script) and a caller-owned context. Every page fetch of such a query runs on executor goroutines under a
+	// per-execution context that the executor cancels as soon as a result is in: that cancellation must not reach
+	// the fetch of the following pages; a cancellation by the CALLER legitimately ends the iteration with an error.
+	specCases := func(ss [][]int) []pcase {
+		var out []pcase
+		for _, sc := range ss {
+			out = append(out, pcase{script: sc, spec: true})
+		}
+		return out
+	}
+	if !thorough {
+		add(&c15scn{name: "wide-speculative", hosts: 2, confs: product(allPrefetch, pageSizes, allPrep, allCons), cases: specCases(scripts(2, 2, rowsAlpha)), quick: onlyFaults, thor: onlyFaults})
+	} else {
+		add(&c15scn{name: "wide-speculative+", hosts: 2, confs: product(allPrefetch, pageSizes, allPrep, allCons), cases: specCases(scripts(1, 3, rowsAlpha)), quick: onlyFaults, thor: onlyFaults})
+	}
+	{
+		cA, cB, cC := conf{0.5, 3, prepNo, consScan}, conf{0, 3, prepNo, consScanner}, conf{1, 100, prepSkip, consScan}
+		var sp []combo
+		sp = append(sp, cross([]conf{cA, cB}, []pcase{{script: []int{2, 1}, spec: true}, {script: []int{1, 0, 2}, spec: true}})...)
+		sp = append(sp, combo{cC, pcase{script: []int{2, 1}, spec: true}})
+		sp = append(sp, combo{cA, pcase{script: []int{2, 1}, cancelAt: 2}}, combo{cA, pcase{script: []int{2, 1}, cancelAt: 2, spec: true}},
+			combo{cB, pcase{script: []int{1, 1, 1}, cancelAt: 1}}, combo{conf{1, 3, prepNo, consMapScan}, pcase{script: []int{3, 1}, cancelAt: 2}})
+		add(&c15scn{name: "speculative-and-caller-context", hosts: 2, combos: byWeight(sp), quick: b(1), thor: b(2)})
+		// one pair deeper (a single alternative: the engine then shards over the schedule deviations, evenly)
+		if !thorough { // (contained in the previous scenario at T=2 in the thorough tier)
+			add(&c15scn{name: "speculative-deep", hosts: 2, combos: []combo{{cA, pcase{script: []int{2, 1}, spec: true}}}, quick: b(2), thor: b(2)})
+		}
+	}
 	if thorough {
-		// broader at T=2: every 2-page script x every threshold for Scan and SliceMap; 4-page scripts
-		add(&c15scn{name: "broad-2pages+", combos: byWeight(cross(product(allPrefetch, []int{3}, []int{prepNo}, []int{consScan, consSliceMap}), autoCases(scripts(2, 2, rowsAlpha)))), quick: b(2), thor: b(2)})
-		add(&c15scn{name: "four-pages+", combos: byWeight(cross([]conf{scan(0.5), {0.25, 3, prepSkip, consMapScan}, {1, 100, prepNo, consSliceMap}, {0, 3, prepNoSkip, consScanner}},
-			[]pcase{sc(2, 0, 3, 0), sc(1, 1, 1, 1), sc(3, 3, 0, 2), sc(0, 0, 0, 1)})), quick: b(2), thor: b(2)})
 		// ALL interleavings (no preemption bound, no timer/failure deviation) of consumer vs prefetch for the smallest script that prefetches
 		add(&c15scn{name: "all-interleavings+", combos: []combo{{scan(0.5), sc(2, 1)}}, quick: vs.Bounds{P: -1}, thor: vs.Bounds{P: -1}})
 	}
@@ -796,5 +913,5 @@ func main() {
 			"the node answers a request according to the paging state it RECEIVES and logs statement/id, values, consistency, flags, page size, paging state (decoded by the independent reference codec)",
 			"stream-allocator atomics are not scheduling points (C08); map iteration order fixed; -race pass separate",
 			"page size does not constrain the script (a node may return fewer rows than the page size; scripts have <= 3 rows per page and page size >= 3)"},
-		defs, 60*time.Second, 20*time.Minute, nil)
+		defs, 60*time.Second, 30*time.Minute, nil) // thorough: 10 scenarios share 30 min = 180 s each; the largest need 90-180 s on a loaded machine, the whole tier ~8-10 min
 }
